@@ -20,7 +20,12 @@ import (
 func c10Event(c obj, kind string) obj {
 	mode, _ := c["mode"].(string)
 	prefer, _ := c["prefer"].(bool)
-	ev := obj{"c": c, "envkind": kind}
+	// every fifth case (by its own number) is a pipeline that holds NOTHING but the env block
+	bare := false
+	if ed, ok := c["edit"].(json.Number); ok {
+		bare = (len(fmt.Sprint(c["block"]))+len(ed.String()))%5 == 0
+	}
+	ev := obj{"c": c, "envkind": kind, "bare": bare}
 	p, msg := guarded(func() {
 		pairs := [][2]any{}
 		blk, _ := c["block"].([]any)
@@ -42,6 +47,9 @@ func c10Event(c obj, kind string) obj {
 		// pipeline" is not only the steps
 		doc := orderedJSON([][2]any{{"agents", orderedJSON{{"queue", probe}}}, {"env", orderedJSON(pairs)}, {"steps", []any{obj{"command": probe}}},
 			{"notify", []any{orderedJSON{{"email", probe}}}}})
+		if bare {
+			doc = orderedJSON([][2]any{{"env", orderedJSON(pairs)}})
+		}
 		src := string(asciiJSON(doc))
 		pl, err := pipeline.Parse(strings.NewReader(src))
 		if err != nil && !warning.Is(err) {
@@ -110,8 +118,10 @@ func c10Event(c obj, kind string) obj {
 		pl.Env.Range(func(k, v string) error { fb = append(fb, [2]string{k, v}); return nil })
 		ev["block"] = fb
 		ev["probe"] = ""
-		if cs, ok := pl.Steps[0].(*pipeline.CommandStep); ok {
-			ev["probe"] = cs.Command
+		if len(pl.Steps) > 0 {
+			if cs, ok := pl.Steps[0].(*pipeline.CommandStep); ok {
+				ev["probe"] = cs.Command
+			}
 		}
 		ev["probetop"] = []string{"<missing>", "<missing>"}
 		if ierr == nil {
